@@ -790,7 +790,7 @@ fn c06_group(g: &C06Group) -> (Vec<Violation>, CaseOut) {
     // counts[(owner, w)][value] = (ones, total)
     let mut counts: BTreeMap<(usize, usize), [(u64, u64); 2]> = BTreeMap::new();
     let canary = g.base.inputs.iter().any(|i| i.len() >= 128) && !g.balance_wide;
-    let mut fresh_seen: std::collections::HashSet<(&'static str, u64)> = std::collections::HashSet::new();
+    let mut fresh_seen: std::collections::HashMap<[u8; 16], (&'static str, usize, usize, usize)> = std::collections::HashMap::new();
     for r in 0..g.runs {
         let s = c06_run_spec(g, r, canary);
         let run = mpcrun::run(&s, None);
@@ -837,14 +837,23 @@ fn c06_group(g: &C06Group) -> (Vec<Violation>, CaseOut) {
                     ));
                     return (v, out);
                 }
-                if !fresh_seen.insert((pr.site, entropy::fnv(0, &pr.data))) {
-                    v.push(viol(
-                        "secret-randomness-repeated",
-                        &format!("secret-randomness-repeated:{}", pr.site),
-                        format!("party {p}, execution {r}: the value used at '{}' was used before in this group of executions", pr.site),
-                        &sv,
-                    ));
-                    return (v, out);
+                // no 16-byte block of it occurs anywhere else: not at the same site, not at another
+                // site, not at another party (two parties drawing "private" values from the same
+                // generator), not in another execution
+                for (bi, block) in pr.data.chunks_exact(16).enumerate() {
+                    let key: [u8; 16] = block.try_into().unwrap();
+                    if let Some((site0, p0, r0, b0)) = fresh_seen.insert(key, (pr.site, p, r, bi)) {
+                        v.push(viol(
+                            "secret-randomness-repeated",
+                            &format!("secret-randomness-repeated:{}", if site0 == pr.site { pr.site.to_string() } else { format!("{}+{}", site0.min(pr.site), site0.max(pr.site)) }),
+                            format!(
+                                "16-byte block #{bi} of the value used at '{}' by party {p} in execution {r} equals block #{b0} of the value used at '{site0}' by party {p0} in execution {r0}",
+                                pr.site
+                            ),
+                            &sv,
+                        ));
+                        return (v, out);
+                    }
                 }
             }
         }
@@ -1056,7 +1065,7 @@ impl Check for C06 {
         "exploration"
     }
     fn rule(&self) -> String {
-        "each case fixes a configuration (n in {2,3}) and executes it N times per input value (N=200 quick, 2000 thorough; fresh coins and schedule seed each) with all input bits 0 resp. 1; from the transcript alone, for every input wire: b = decoded 'masked inputs' bit xor the bits the other parties sent to the owner in 'wire shares'; the count of b=1 must lie within 6.5 sigma of N/2 for input 0 and input 1 alike. Canary cases: a party with 128 random input bits, its outgoing traffic scanned for the run as 128 bool bytes, as 16 packed bytes in both bit orders and as a run in the decoded bool stream. Wide configurations (129 input wires) run under the balance test too, and there the vector of a party's own shares of the masks of its own input wires must not appear in its traffic, and the one-time pads of the half-authenticated AND (probed) must be fresh: no run of more than 64 equal pad bits, balanced overall. All probed global keys, and all own-mask vectors of >= 64 bits, must be pairwise distinct over all runs and parties. Secret randomness probed at its point of use (KOS choice-bit padding, OT-extension base key and seed pairs, base-OT sender scalar): every value has the byte diversity of random data and none occurs twice within a group of executions. fashare level (n in 2..4, l in {1,2,3,7,40,128,129,1000}): none of the MACs a party holds on the shares fashare returns to it, and none of the keys it holds for the others' returned shares, appears at any byte offset (either byte order) in anything it sent - the consistency round opens only the RHO extra shares. evaluations = simulated runs; distinct = (configuration, run) coins".into()
+        "each case fixes a configuration (n in {2,3}) and executes it N times per input value (N=200 quick, 2000 thorough; fresh coins and schedule seed each) with all input bits 0 resp. 1; from the transcript alone, for every input wire: b = decoded 'masked inputs' bit xor the bits the other parties sent to the owner in 'wire shares'; the count of b=1 must lie within 6.5 sigma of N/2 for input 0 and input 1 alike. Canary cases: a party with 128 random input bits, its outgoing traffic scanned for the run as 128 bool bytes, as 16 packed bytes in both bit orders and as a run in the decoded bool stream. Wide configurations (129 input wires) run under the balance test too, and there the vector of a party's own shares of the masks of its own input wires must not appear in its traffic, and the one-time pads of the half-authenticated AND (probed) must be fresh: no run of more than 64 equal pad bits, balanced overall. All probed global keys, and all own-mask vectors of >= 64 bits, must be pairwise distinct over all runs and parties. Secret randomness probed at its point of use (KOS choice-bit padding, OT-extension base key and seed pairs, base-OT sender scalar): every value has the byte diversity of random data and no 16-byte block of any of them occurs twice - at the same or another site, at the same or another party, in the same or another execution of the group. fashare level (n in 2..4, l in {1,2,3,7,40,128,129,1000}): none of the MACs a party holds on the shares fashare returns to it, and none of the keys it holds for the others' returned shares, appears at any byte offset (either byte order) in anything it sent - the consistency round opens only the RHO extra shares. evaluations = simulated runs; distinct = (configuration, run) coins".into()
     }
     fn assumptions(&self) -> Vec<String> {
         vec![
